@@ -2,6 +2,7 @@
 # MANIFEST.setup_cmd: build the Lean models, proofs and the line-protocol driver from files on disk only.
 set -e
 cd "$(dirname "$0")/lean"
+python3 gen_dispatch.py
 lake build rvdriver RallyModel RallyProofs RallyProps 2>&1 | tail -5
 echo '{"m":"ping","op":"x","a":null}' | .lake/build/bin/rvdriver | grep -q pong
 echo "setup ok"
